@@ -1,6 +1,6 @@
 (** C05 — No text makes a parser or the expression evaluator panic or hang (expression evaluator part).
     Statements only; proofs in Proofs/ExprShapeProofs.v.  Model of the repaired evaluator
-    (32df0c7, aee5bb9): every slice of the code is modelled with its byte offsets, and a slice off a
+    (32df0c7, aee5bb9, e2ff44b, 037343a, 20bd893): every slice of the code is modelled with its byte offsets, and a slice off a
     character boundary or out of range is the value [RPanic]. *)
 From RRE Require Import Base.Sx Model.ExprShape Proofs.ExprShapeProofs.
 Open Scope Z_scope.
@@ -20,7 +20,7 @@ Print Assumptions C05_expr_depth_le_length.
 
 (** the three slices around the operator always succeed *)
 Theorem C05_operator_slices_valid : forall (ws : Z -> bool) (is_num : str -> bool) ops e pos,
-  ascii_ops ops -> find_op ops e 0 0 None = Some pos ->
+  ascii_ops ops -> find_operator ws ops e = Some pos ->
   exists l c r, slice e 0 pos = Some l /\ slice e pos (pos + 1) = Some [c] /\ slice e (pos + 1) (blen e) = Some r
                 /\ (length l < length e)%nat /\ (length r < length e)%nat.
 Proof. exact split_around. Qed.
